@@ -318,6 +318,11 @@ const SpecInfinity = 16
 // the publisher of the C19 histories, among them) with a trailing slash (accepted by Config.Parse,
 // same name).
 func RouterName(i int) string {
+	if i == 3 {
+		// the components of router 1's name in another order (an operator's naming scheme may well
+		// produce such pairs: /<site>/<role> and /<role>/<site>)
+		return "/r1" + Network
+	}
 	if i%2 == 0 {
 		return fmt.Sprintf("%s/r%d/", Network, i)
 	}
@@ -366,9 +371,8 @@ func NewSimCfg(n int, advMs, deadMs uint64) (*Sim, error) {
 		go r.VerifNfdc().Start()
 		r.VerifRib().Set(nd.Name, nd.Name, 0)
 	}
-	if len(s.byHash) != n {
-		panic("harness: router name hash collision (A-hash)")
-	}
+	// two routers with one name hash (assumption A-hash violated): not a reason to stop here — the keys
+	// are printed by the `new` operation and judged by the model driver (clause A-hash)
 	s.Settle()
 	for _, nd := range s.Nodes {
 		nd.Eng.TakeCmds()
